@@ -4,6 +4,20 @@ defects (from known_findings.json) and seeded changes (from seeded/*/meta.json +
 import glob, json, os, re
 
 MISSED = {
+ # round 5 (I, J)
+ 'C02-I': 'same edit as C14-A (Sync no longer drains the queue) seen from the crash side; judged a miss from its description before any run (C02 drove one call at a time): group `covered` (writes acknowledged while a snapshot / compaction is parked are covered once it completed; process death right after it returned)',
+ 'C02-J': 'a plain restart between the post-recovery deletions and the compaction (c02Evaluate); the same extension found the genuine defect D69',
+ 'C05-I': 'usability probe of a never-populated index with a vector of another dimension after a rejected call',
+ 'C06-J': 'part `memscores`: the decay factor of an id is the same alone and inside any larger result, and the same on both search paths',
+ 'C09-J': 'part `hybridfilter`: hybrid searches under a metadata filter, text scores normalised by the best BM25 among the documents that pass it',
+ 'C10-I': 'the incoming view is compared version by version (weight, properties, stamps), not only by source (vexec.CheckGraphViews and C10 `conc`)',
+ 'C11-I': 'graph-scoped searches with a text part (explicit / CONTAINS, hybrid / text-only): same scope, nothing from an empty scope',
+ 'C14-I': 'judged a miss from its description before any run (no import in the schedule table): `VImport+VImportCommit` as a write kind of the forced-schedule table',
+ 'C14-J': 'group `crashphase`: process death at every phase of a snapshot / compaction / compression / drop; what the recovered engine acknowledges survives its clean restarts (also caught by C02 as it stood: the change needs a process death)',
+ 'C15-I': 'part `twin`: score(memory index) = score(twin index without decay) x decay(id) for vector and hybrid searches, k above and below the number of memories',
+ 'C17-J': 'request bodies carry what chat clients send besides the latest user message (typed extras, an earlier multimodal turn with a list as content)',
+ 'C18-J': 'a late batch (more vectors than CPUs) on the parallel insert path of the index\'s current precision after compression',
+ 'C19-J': 'the float16 fixture index holds a vector with a component beyond the float16 range (+Inf in the index)',
  # round 4 (G, H)
  'C19-G': 'interpreted-string family: every string field carries malformed sentences of the language the server reads from it (truncations, deletions, metacharacters, dangling / doubled operators of filters, enumerations, relation paths), token soups, 2-3 simultaneous field mutations, empty / emptied / float16 indexes, every other HTTP method',
  'C16-G': 'group `methods`: every route x 12 HTTP methods x refused credentials (no header, 90+ forgeries, revoked, expired, altered byte) and restricted tokens; gate oracle: no 2xx behind the auth chain, no effect, no secret in the response',
